@@ -5,8 +5,10 @@
                                                    the model works on the remaining-bytes view, i.e. the concatenation
    cfg     ROLE CALLS G Q                          connection setup after the builder setter calls CALLS (NAME=V,... in call order, - = none);
                                                    G = grease draw (model only), Q = write quantum of the transport (impl only)
-   rx      ROLE CALLS LENFORM PAYLOAD TAIL CHUNK PRE   a connection built with CALLS receives 00 ++ SETTINGS(PAYLOAD) ++ TAIL on the peer's control stream,
-                                                   which the peer opens after the other uni streams PRE (impl only: they must not matter)
+   cfg2    ROLE CALLS1 CALLS2 G                    one builder: CALLS1, build(), CALLS2, build(); the control streams of both connections
+   rx      ROLE CALLS LENFORM PAYLOAD TAIL CHUNK PRE ACT  a connection built with CALLS receives 00 ++ SETTINGS(PAYLOAD) ++ TAIL on the peer's control stream,
+                                                   which the peer opens after the other uni streams PRE; ACT = local API activity before the SETTINGS are read
+                                                   (sd shutdown, rq request in flight, ra request afterwards).  PRE and ACT are impl only: they must not matter
    dflt                                            values in force before any SETTINGS
    each line prints `<model> | <spec>` *)
 let get_ids = List.map n_of_string ["0"; "1"; "6"; "7"; "8"; "51"; "727725890"; "727725891"]
@@ -107,7 +109,22 @@ let handle ws = match ws with
                (List.map (fun (id, v) -> string_of_n id ^ ":" ^ string_of_n v)
                   (rfc_config_pairs mfs (ov O_wt = one) (ov O_ec = one) (ov O_dg = one) wtmax)) in
       m ^ " | " ^ s
-  | ["rx"; _role; _calls; form; payload; tail; _chunk; _pre] ->
+  | ["cfg2"; role; calls1; calls2; g] ->
+      (* one builder, two build() calls, CALLS2 between them; both setups must succeed in these cases *)
+      let g = n_of_string g in
+      let c1 = parse_calls calls1 and c2 = parse_calls calls2 in
+      let strip = List.map (fun (s, _, v) -> (s, v)) in
+      let (k1, k2) = build_twice (if role = "c" then RClient else RServer) (strip c1) (strip c2) in
+      let one k = (match setup_control g k with Ok w -> Some (drain w) | _ -> None) in
+      let m = (match one k1, one k2 with Some a, Some b -> "ok " ^ a ^ " " ^ b | _ -> "err") in
+      let one = n_of_int 1 in
+      let sp cs =
+        let ov o = opt_value (List.map (fun (_, o, v) -> (o, v)) cs) o in
+        (if ov O_grease = one then "1" else "0") ^ " " ^ String.concat ","
+          (List.map (fun (id, v) -> string_of_n id ^ ":" ^ string_of_n v)
+             (rfc_config_pairs (ov O_mfs) (ov O_wt = one) (ov O_ec = one) (ov O_dg = one) (ov O_wtmax))) in
+      m ^ " | ok " ^ sp c1 ^ " " ^ sp (c1 @ c2)
+  | ["rx"; _role; _calls; form; payload; tail; _chunk; _pre; _act] ->
       let p = bytes_of_hex payload and t = bytes_of_hex tail in
       let bytes = n_of_int 4 :: (lenenc (int_of_string form) (len p) @ p @ t) in
       let m = (match recv_control (nat_of_int 10) bytes init_peer with
